@@ -10,8 +10,10 @@ def run(ctx):
         "a scripted allocator + recording sampler) and AST fingerprints",
         "contracts (Section variables, never axioms): the ConcurrentSampler returns one result per submitted pair in "
         "order; numpy multinomial returns non-negative integers summing to its first argument",
-        "partial: binary64 rounding inside total*ratio (theorems are over R), measurement factories (see C07) and the "
-        "reconstruction of expectation values from counts are decided by the numpy sweep",
+        "hand model coq/model/SamplingMean.v of general_pauli_expectation_estimator / general_pauli_sum_expectation_estimator "
+        "(count-weighted mean; generic number type: R for the theorems, Q for the vm_compute correspondence) + fingerprints",
+        "partial: binary64 rounding inside total*ratio (theorems are over R), measurement factories and the link from "
+        "the mean of reconstructed eigenvalues to <psi|P|psi> (see C07) are decided by the numpy sweep",
     ]
     p = "packages/core/quri_parts/core/estimator/sampling/"
     fingerprint.check(ctx, p + "estimator.py", ["sampling_estimate", "get_estimate_from_sampling_result", "_Estimate.value",
@@ -20,6 +22,7 @@ def run(ctx):
     fingerprint.check(ctx, "packages/core/quri_parts/core/sampling/shots_allocator.py",
                       ["_rounddown_to_unit", "_calc_ratios", "create_equipartition_shots_allocator",
                        "create_proportional_shots_allocator", "create_weighted_random_shots_allocator"])
+    fingerprint.check(ctx, p + "pauli.py", ["general_pauli_expectation_estimator", "general_pauli_sum_expectation_estimator"])
     ctx.coq([], ["C08.v"])
     ctx.harness("corr_C08.py", kind="corr")
     ctx.harness("sweep_C08.py")
